@@ -12,7 +12,7 @@ MAXSTEPS = 400000
 
 
 import os as _os, time as _time
-EVAL_BUDGET_S = int(_os.environ.get("NX_EVAL_BUDGET", "90"))
+EVAL_BUDGET_S = int(_os.environ.get("NX_EVAL_BUDGET", "60"))
 _ACTIVE = [0, 0.0]          # evaluations in progress, their common deadline
 
 
